@@ -348,15 +348,28 @@ def judge_e2e(ck, cases, results):
                          why='emitted bound excludes a permitted value, is not the effective constraint, or extensibility is wrong')
 
 
-def inclusion_module(elems, ops, marker, j):
+def inclusion_module(elems, ops, marker, j, chain=False):
     """the expression with operand j written as the inclusion of a type constrained to exactly that operand (same permitted values),
-    and the whole expression reached through the inclusion of a string type that carries it as its SIZE"""
+    and the whole expression reached through the inclusion of a string type that carries it as its SIZE.
+    chain: the included type is a constrained reference -- `IncBase ::= INTEGER (wider)`, `Inc ::= IncBase (operand)` -- with the
+    same permitted values"""
     shown = [dict(e) for e in elems]
     shown[j] = {'k': 'ref', 'name': 'Inc'}
     text = G.t_constraint({'set': G.chain(elems, ops), 'ext': marker})
     text2 = G.t_constraint({'set': G.chain(shown, ops), 'ext': marker})
+    inc = 'Inc ::= INTEGER (%s)\n'
+    if chain:
+        e = elems[j]
+        lo = e['v'] if e['k'] == 'single' else e.get('lo')
+        hi = e['v'] if e['k'] == 'single' else e.get('hi')
+        wide = '%s..%s' % ('MIN' if lo is None else str(int(lo['i']) - 7), 'MAX' if hi is None else str(int(hi['i']) + 3))
+        if chain == 'base-exact':
+            # the bound comes from the type the reference leads to, the reference's own constraint is the wider one
+            inc = 'IncBase ::= INTEGER (%s)\nInc ::= IncBase (' + wide + ')\n'
+        else:
+            inc = 'IncBase ::= INTEGER (' + wide + ')\nInc ::= IncBase (%s)\n'
     return ('M DEFINITIONS AUTOMATIC TAGS ::= BEGIN\n'
-            'Inc ::= INTEGER (%s)\n'
+            + inc +
             'Aa ::= INTEGER %s\n'
             'Bb ::= SEQUENCE { b INTEGER %s }\n'
             'Parent ::= INTEGER\nCc ::= SEQUENCE { c Parent %s }\n'
@@ -544,8 +557,10 @@ def run(ck):
                for e in elems):
             continue
         j = ck.rng.randrange(len(elems))
-        src, text2 = inclusion_module(elems, ops, marker, j)
+        chain = ck.rng.choice([False, False, 'ref-exact', 'base-exact']) if elems[j]['k'] in ('single', 'range') and not elems[j].get('x') else False
+        src, text2 = inclusion_module(elems, ops, marker, j, chain)
         incl.append({'op': 'compile', 'sources': [src], '_m': (elems, ops, marker, j), '_text': text2})
+        ck.count('inclusion:through-constrained-reference:%s' % chain if chain else 'inclusion:direct')
     if incl:
         ck.sample({'asn1': incl[0]['sources'][0]})
     judge_inclusion(ck, incl, run_harness(incl))
